@@ -127,7 +127,7 @@ func runControls(r *Report) {
 			return false
 		}},
 		{"null-decode", "NullDecodeGood", "NullDecodeBad", func(f *ssa.Function) bool {
-			nds := nullDecodes(f)
+			nds := nullDecodes(nil, f)
 			return len(nds) == 1 && nds[0].bad == token.NoPos
 		}},
 		{"timeout-only", "OnlyTimeoutGood", "OnlyTimeoutBad", func(f *ssa.Function) bool { return timeoutOnly(f) }},
